@@ -25,7 +25,7 @@ func callSite(f *Frag, kw string) (text string, retType string) {
 	cc := f.Alt("callconv", callConvs...)
 	retAttrs := f.Alt("ret-attrs", "", "zeroext ", "signext ", "inreg ", "noundef ")
 	as := f.Opt("addrspace", "addrspace(0) ")
-	form := f.N("callee", 13)
+	form := f.N("callee", 14)
 	var callee, args, ty string
 	retType = "i32"
 	a := f.Param("i32")
@@ -75,7 +75,12 @@ func callSite(f *Frag, kw string) (text string, retType string) {
 		ty, callee, args, retType = "float (i32)", "bitcast (i32 (i32)* @f1 to float (i32)*)", "i32 "+a, "float"
 		retAttrs = ""
 	}
-	if cc != "" && (form != 4 && form != 6) {
+	if form == 13 { // callee is a function pointer in a non-default address space
+		fp := f.Param("i32 (i32) addrspace(1)*")
+		ty, callee, args = "i32", fp, "i32 "+a
+		as = "addrspace(1) "
+	}
+	if cc != "" && (form != 4 && form != 6 && form != 13) {
 		// a calling convention on the call must match the callee: use an indirect callee.
 		fp := f.Param("i32 (i32)*")
 		ty, callee, args, retType = "i32", fp, "i32 "+a, "i32"
@@ -222,6 +227,13 @@ func TermEntries() []Entry {
 				r := f.Res()
 				f.Line(`%s = call i32 asm%s "mov $1, $0", "=r,r"(i32 %s)`, r, flags, a)
 				f.Use("i32", r)
+				if f.Flip("same-asm-other-type") {
+					// the same assembly, constraints and flags at ANOTHER function type
+					b := f.Param("i64")
+					r2 := f.Res()
+					f.Line(`%s = call i64 asm%s "mov $1, $0", "=r,r"(i64 %s)`, r2, flags, b)
+					f.Use("i64", r2)
+				}
 			} else {
 				f.Line(`call void asm%s "nop", ""()`, flags)
 			}
